@@ -150,6 +150,23 @@ pub fn vmax_by_cmp(nodes: Vec<MNode>) -> (r: MNode)
     requires nodes@.len() > 0,
     ensures exists|i: int| 0 <= i < nodes@.len() && r == #[trigger] nodes@[i],
 { unimplemented!() }
-// commands-level recursion: merge_trees on the sub-directories of all directory nodes of the group
+// the sub-directories of ALL directory entries of a group, in order
+pub open spec fn dir_subtrees(nodes: Seq<MNode>) -> Seq<TreeId>
+    decreases nodes.len()
+{
+    if nodes.len() == 0 { Seq::empty() }
+    else if nodes.last().dir && nodes.last().subtree is Some { dir_subtrees(nodes.drop_last()).push(nodes.last().subtree->0) }
+    else { dir_subtrees(nodes.drop_last()) }
+}
+// nodes.iter().filter(|node| node.is_dir()).map(|node| node.subtree.unwrap()).collect()  (unwrap: a directory entry has a subtree)
 #[verifier::external_body]
-pub fn vmerge_subtrees(trees: &Vec<TreeId>, summary: &mut SummaryM) -> RusticResult<TreeId> { unimplemented!() }
+pub fn vsubtrees_of_dirs(nodes: &Vec<MNode>) -> (r: Vec<TreeId>)
+    requires forall|i: int| 0 <= i < nodes@.len() && (#[trigger] nodes@[i]).dir ==> nodes@[i].subtree is Some,
+    ensures r@ == dir_subtrees(nodes@),
+{ unimplemented!() }
+// recursion: merge_trees on the given sub-directories.  PRECONDITION (what the property asks of the caller): they are the
+// sub-directories of ALL directory entries of the group -- a sub-directory left out is content lost by the merge
+#[verifier::external_body]
+pub fn vmerge_subtrees(trees: &Vec<TreeId>, summary: &mut SummaryM, Ghost(group): Ghost<Seq<MNode>>) -> RusticResult<TreeId>
+    requires trees@ == dir_subtrees(group),
+{ unimplemented!() }
